@@ -327,3 +327,246 @@ def set_output_helpers(ck):
             if 'block:SBlock.set_output' in callers or any(c.endswith(tuple(o.name for o in out)) for c in callers):
                 out.append(m)
     return out
+
+
+def event_result_passed_on(ck, rule, cls_qual):
+    """Every event() wrapper in the MRO of `cls_qual` above SBlock.event (add-ons overriding event()
+    around super().event(...)) returns, on every normal exit, the value super().event(...) returned:
+    'every event returns the updated output' (C20) / 'returns the handler's result' (C14) also holds
+    for blocks with persistent state, whatever their sync_state."""
+    from sa.loader import ClassInfo, is_super_call, own_nodes
+    from sa.rulekit import return_nodes
+    prog = ck.prog
+    ci = prog.cls(cls_qual)
+    n = 0
+    for c in ci.mro:
+        if not isinstance(c, ClassInfo) or 'event' not in c.methods or c.qual == 'block:SBlock':
+            continue
+        fi = c.methods['event']
+        sup = [x for x in own_nodes(fi.node) if is_super_call(x, 'event')]
+        if not sup:
+            continue
+        n += 1
+        g = ck.cfg(fi.fid, 'M0')
+        rd = ck.rdefs(fi.fid, 'M0')
+        rets = return_nodes(g)
+        bad = []
+        for r in rets:
+            v = r.ast.value
+            if v is None:
+                bad.append(f"bare return at line {r.lineno}")
+            elif isinstance(v, ast.Call) and is_super_call(v, 'event'):
+                continue
+            elif isinstance(v, ast.Name):
+                defs = rd.defs_at(r, v.id)
+                if not defs or not all(d.kind == 'stmt' and isinstance(d.ast, ast.Assign) and
+                                       isinstance(d.ast.value, ast.Call) and is_super_call(d.ast.value, 'event')
+                                       for d in defs):
+                    bad.append(f"`return {v.id}` at line {r.lineno} may return something else than the "
+                               "result of super().event()")
+            else:
+                bad.append(f"`return {norm(v)[:40]}` at line {r.lineno}")
+        # falling off the end
+        fall = g.path_avoiding(g.entry, [g.exit], avoid=rets)
+        if fall is not None:
+            bad.append("a path ends without a return statement (None is returned)")
+        ck.ob(rule, f"{fi.fid} :: result of super().event() returned", not bad,
+              "every normal exit returns what super().event() returned" if not bad else '; '.join(bad),
+              fi, fi.node, witness=path_witness(g, fall) if fall else None)
+    return n
+
+
+def simtask_implies_error_recorded(ck, rule):
+    """is_ready() = (the simulation task is recorded) and (the error slot is empty).  Hence: once
+    run_forever has recorded the task, every way out of it - in particular a failure before or during
+    the start - passes a statement that fills the error slot; otherwise a circuit whose start was
+    refused keeps answering is_ready() == True and external events are delivered to it (C14), and it
+    counts as running for ever (C09)."""
+    rf = ck.prog.func('simulator:Circuit.run_forever')
+    g = ck.cfg(rf.fid, 'M1')
+    simw = nodes_writing_attr(g, '_simtask')
+    ck.need(rule, len(simw) >= 1, "run_forever does not record the simulation task")
+    errw = nodes_writing_attr(g, '_error')
+    # `raise self._error` leaves with the slot filled (it is asserted / tested non-empty right before)
+    reraise = nodes_where(g, lambda n: isinstance(n.ast, ast.Raise) and n.ast.exc is not None and
+                          norm(n.ast.exc) == 'self._error', kinds=('stmt',))
+    filled = [n for n in g.nodes if n.kind == 'branch' and any(
+        canon_fact(e, p) == canon_fact(ast.parse('self._error is None', mode='eval').body, False)
+        for e, p in decompose(n.test.ast, n.polarity))]
+    wit = None
+    for w in simw:
+        wit = wit or g.path_avoiding(w, [g.exit, g.raise_exit], avoid=errw + reraise + filled,
+                                     start_successors_only=True)
+    ck.ob(rule, f"{rf.fid} :: recorded task => error recorded at every exit", wit is None,
+          "after the simulation task is recorded every exit of run_forever has filled the error slot"
+          if wit is None else
+          "run_forever can be left (e.g. by a check that fails before the start) with the simulation task "
+          "recorded and the error slot empty: is_ready() stays True for a circuit that is not running",
+          rf, simw[0].ast, witness=path_witness(g, wit))
+
+
+def event_send_run(ck):
+    """Layout-independent decision for Event.send: the function (with the private helper methods of
+    Event it calls) is interpreted on every pipeline of 0..2 filters drawn from eight kinds -
+    accepting in place, rejecting with False / None / 0, returning a new dict, an EMPTY dict, a
+    non-dict MutableMapping layered over the received data (ChainMap), a mapping with a non-string
+    key - and the observable behaviour (what every filter received, what the destination received,
+    the return value / exception) is compared with the documented pipeline:
+        data['source'] = <sender>.name first; each filter gets the data that left its predecessor;
+        a MutableMapping result (even an empty one) replaces the data, any other false result vetoes,
+        any other true result keeps the data; exactly one dest.event(etype, **data) iff not vetoed.
+    -> {'applicable', 'why', 'bad': {aspect: [...]}, 'cases'} (cached on ck)."""
+    if getattr(ck, '_event_send_run', None) is not None:
+        return ck._event_send_run
+    import collections
+    import itertools
+    from sa.minieval import MiniEval, Obj, ModuleGlobals
+    from sa.loader import AnalysisError
+    prog = ck.prog
+    es = prog.func('block:Event.send')
+    evc = prog.cls('block:Event')
+    res = {'applicable': False, 'why': '', 'bad': {}, 'cases': 0}
+    bad = {'source': [], 'pipeline': [], 'veto': [], 'delivery': [], 'keys': []}
+    a = es.node.args
+    pos = [x.arg for x in a.posonlyargs + a.args]
+    if len(pos) != 2 or a.kwarg is None:
+        res['why'] = 'unexpected signature of Event.send'
+        ck._event_send_run = res
+        return res
+    src_p, data_p = pos[1], a.kwarg.arg
+
+    def resolve(text):
+        if text.startswith('self.') and text[5:].isidentifier():
+            f_ = prog.resolve_method(evc, text[5:])
+            if f_ is not None and f_.cls is evc and f_.name not in ('send',) and not prog.is_dummy(f_):
+                return f_.node
+        return None
+    KINDS = ('inplace', 'false', 'none', 'zero', 'newdict', 'empty', 'chainmap', 'badkey')
+
+    def make(kind, seen):
+        def f(data):
+            seen.append((kind, dict(data)))
+            if kind == 'inplace':
+                data['touched'] = data.get('touched', 0) + 1
+                return True
+            if kind == 'false':
+                return False
+            if kind == 'none':
+                return None
+            if kind == 'zero':
+                return 0
+            if kind == 'newdict':
+                return {'fresh': len(seen), 'source': data.get('source')}
+            if kind == 'empty':
+                return {}
+            if kind == 'chainmap':
+                return collections.ChainMap({'layer': 1}, data)
+            return {1: 'x'}
+        f.__name__ = kind
+        return f
+
+    def model(kinds):
+        seen = []
+        data = {'value': 7, 'source': 'SRC'}
+        for k in kinds:
+            r = make(k, seen)(data)
+            if isinstance(r, collections.abc.MutableMapping):
+                if any(not isinstance(key, str) for key in r):
+                    return seen, None, 'TypeError'
+                data = r
+            elif not r:
+                return seen, None, False
+        return seen, dict(data), True
+    CIRC = Obj('circuit')
+    try:
+        for n in (0, 1, 2):
+            for kinds in itertools.product(KINDS, repeat=n):
+                seen, delivered = [], []
+                dest = Obj('dest', {'event': lambda *a_, **k_: delivered.append((a_, k_))}, {'circuit': CIRC})
+                source = Obj('source', {}, {'name': 'SRC', 'circuit': CIRC})
+                env = {'self': 'SELF', src_p: source, data_p: {'value': 7}, 'self._dest': dest,
+                       'self._etype': 'ETYPE', 'self._filters': tuple(make(k, seen) for k in kinds)}
+                glob = ModuleGlobals(prog, es.module, {'simulator.get_circuit': lambda: CIRC})
+                env['simulator.get_circuit'] = lambda: CIRC
+                out = MiniEval('Event.send run', env, resolve, globals_=glob).run(es.node.body)
+                res['cases'] += 1
+                wseen, wdata, wret = model(kinds)
+                case = f"filters {list(kinds)}"
+                if seen and seen[0][1].get('source') != 'SRC':
+                    bad['source'].append(f"{case}: the first filter does not see data['source'] = <sender>.name")
+                if [s_ for s_ in seen] != wseen:
+                    bad['pipeline'].append(f"{case}: the filters received {seen}; documented {wseen}")
+                if wret == 'TypeError':
+                    if not (out[0] in ('raise', 'fault') and 'TypeError' in str(out[1])):
+                        bad['keys'].append(f"{case}: a non-string key is not refused ({out}, delivered {delivered})")
+                    continue
+                if wret is False:
+                    if delivered or out != ('return', False):
+                        bad['veto'].append(f"{case}: documented: vetoed, nothing delivered, False returned; "
+                                           f"code: {out}, delivered {delivered}")
+                    continue
+                if out != ('return', True) or len(delivered) != 1:
+                    (bad['veto'] if not delivered else bad['delivery']).append(
+                        f"{case}: documented: one delivery and True; code: {out}, {len(delivered)} deliveries")
+                    continue
+                a_, k_ = delivered[0]
+                if list(a_) != ['ETYPE'] or k_ != wdata:
+                    bad['delivery'].append(f"{case}: the destination received {a_}, {k_}; documented ('ETYPE',), {wdata}")
+        res['applicable'] = True
+    except AnalysisError as err:
+        res['why'] = err.reason
+    res['bad'] = {k: v[:4] for k, v in bad.items()}
+    ck._event_send_run = res
+    ck.abstract_cases += res['cases']
+    return res
+
+
+def shapes_backed_by_run(ck, shape_fn, what):
+    """Run the shape rules of a function whose behaviour an abstract run has already decided (and found
+    in order): they keep naming statements on the layout they know, but a layout they cannot read -
+    an AnalysisError, or an obligation that fails although the run covers it - is an abstention noted
+    in the evidence, not a verdict."""
+    from sa.loader import AnalysisError
+    n0 = len(ck.obligations)
+    e0 = len(ck.analysis_errors)
+    try:
+        shape_fn()
+    except AnalysisError as err:
+        ck.note(f"shape rules for {what} not applicable to this layout ({err.reason}); decided by the abstract run")
+    for o in ck.obligations[n0:]:
+        if not o['ok']:
+            o['ok'] = True
+            o['msg'] = f"[layout not recognised by the shape rule; decided by the abstract run of {what}] " + o['msg']
+            o.pop('witness', None)
+    if len(ck.analysis_errors) > e0:
+        for rid, reason in ck.analysis_errors[e0:]:
+            ck.note(f"{rid}: {reason} (abstention of a shape rule; {what} is decided by the abstract run)")
+        del ck.analysis_errors[e0:]
+
+
+def event_send_rules(ck, rule, aspects, shape_fn):
+    """Obligations of `rule` about Event.send: the abstract run first (aspects = keys of its result that
+    belong to the calling property), then the property's shape rules as the statement-naming back-up."""
+    run_ = event_send_run(ck)
+    es = ck.prog.func('block:Event.send')
+    TEXT = {'source': "data['source'] = <sender>.name is set before the first filter runs",
+            'pipeline': "each filter receives the data that left its predecessor (a MutableMapping result "
+                        "replaces the data, in-place edits are kept), in the configured order",
+            'veto': "only a false result that is not a mapping vetoes the event (nothing delivered, False "
+                    "returned); an empty mapping is data",
+            'delivery': "exactly one dest.event(etype, **data) with the data that left the last filter; True returned",
+            'keys': "a mapping with a non-string key raises TypeError"}
+    if not run_['applicable']:
+        ck.note(f"abstract run of Event.send not applicable: {run_['why']}")
+        shape_fn()
+        return
+    anybad = False
+    for a in aspects:
+        msgs = run_['bad'][a]
+        anybad = anybad or bool(msgs)
+        ck.ob(rule, f"{es.fid} :: abstract run :: {a}", not msgs,
+              f"{TEXT[a]} (all {run_['cases']} pipelines of 0..2 filters of 8 kinds)" if not msgs
+              else '; '.join(msgs[:2]), es, es.node)
+    if anybad:
+        return
+    shapes_backed_by_run(ck, shape_fn, 'Event.send')
